@@ -20,7 +20,7 @@ from verifkit.ref import loss as RL
 
 ID = "C17"
 RULE = ("SIR-type catalogue models and generated bounded models with noise-free or noisy data; N 20-50 particles, G 1-4 generations, q in {0.3,0.5,0.75} or explicit "
-        "tolerance lists (from a pilot), M nearest neighbours or full kernel, priors unif / gamma / norm, log10-scale flags, parameters listed in non-model order, "
+        "tolerance lists (from a pilot), M nearest neighbours or full kernel, priors unif / gamma / norm, log10-scale flags, 1-3 parameters and (half of the runs) 1-2 unknown initial values listed in a random combined order, "
         "get_posterior_sample followed (sometimes) by continue_posterior_sample; Square and Normal losses; unconstrained runs only. Non-trivial: run with >=2 "
         "generations and >=1 rejection; distinct by hash of the configuration")
 ASSUMPTIONS = ["a numpy LinAlgError from the perturbation kernel at small N is inconclusive (documented weakness in the source)",
@@ -37,14 +37,15 @@ class CostCap(Exception):
 
 def plan(tier):
     q = tier == "quick"
-    return [{"lane": "main", "n": 32 if q else 900, "timeout": 1500 if q else 3400, "min_per_shard": 1, "max_shards": 32}]
+    return [{"lane": "main", "n": 64 if q else 1200, "timeout": 1500 if q else 3400, "min_per_shard": 1, "max_shards": 32}]
 
 
 def floors(tier):
     return {"nontrivial": 12, "held:main": 20, "counter:particles_checked": 600, "counter:generation_events": 1500, "counter:reference_cost_checks": 120,
             "counter:tolerance_sequences_checked": 10, "counter:continued_runs": 4, "counter:rejections_observed": 200,
             "class:prior-unif": 8, "class:prior-gamma": 5, "class:prior-norm": 5, "class:logscale": 5, "class:non-model-order": 8,
-            "class:nearest-neighbours": 5, "class:tolerance-list": 3, "class:quantile": 10}
+            "class:nearest-neighbours": 5, "class:tolerance-list": 3, "class:quantile": 10,
+            "class:infers-initial-state": 8, "class:three-or-more-unknowns": 6, "class:re-ordering-not-self-inverse": 3}
 
 
 class AbcProbe:
@@ -99,12 +100,27 @@ def run_case(rng, idx, tier, lane, ctx):
     infer = [p for p in c.params if p not in ("N",)]
     infer = rng.sample(infer, rng.randint(1, min(3, len(infer))))
     cls = list(c.classes) + [c.kind]
-    if [c.params.index(p) for p in infer] != sorted(c.params.index(p) for p in infer):
+    # unknown initial values: in half of the runs 1-2 states with a positive initial value are inferred as well; the combined list
+    # is handed over in a random order (pygom re-orders it internally to parameters-then-states)
+    infer_states = []
+    pos_states = [s_ for s_, v in zip(c.states, c.x0) if v > 1e-6]
+    if pos_states and rng.random() < 0.5:
+        infer_states = rng.sample(pos_states, rng.randint(1, min(2, len(pos_states))))
+        cls.append("infers-initial-state")
+    infer = infer + infer_states
+    rng.shuffle(infer)
+    internal = [p for p in infer if p in c.params] + [s_ for s_ in c.states if s_ in infer_states]
+    perm = [infer.index(n_) for n_ in internal]
+    if perm != sorted(perm):
         cls.append("non-model-order")
+    if len(infer) >= 3:
+        cls.append("three-or-more-unknowns")
+    if [perm[k] for k in perm] != list(range(len(perm))):
+        cls.append("re-ordering-not-self-inverse")
     pri = []
     desc = []
     for p in infer:
-        tv = c.theta[c.params.index(p)]
+        tv = c.theta[c.params.index(p)] if p in c.params else c.x0[c.states.index(p)]
         kind = rng.choice(["unif", "unif", "gamma", "norm", "logunif"])
         if kind == "unif":
             lo, hi = round(tv * rng.uniform(0.2, 0.6), 5), round(tv * rng.uniform(1.6, 2.5), 5)
@@ -125,7 +141,8 @@ def run_case(rng, idx, tier, lane, ctx):
             pri.append(pgabc.Parameter(p, "norm", tv, sd, logscale=False))
             desc.append([p, "norm", tv, sd, False])
         cls.append("prior-" + ("unif" if kind == "logunif" else kind))
-    c.target_param = [p for p in c.params if p in infer]      # model order, as create_loss builds it
+    c.target_param = [p for p in infer if p in c.params]
+    c.target_state = [s_ for s_ in c.states if s_ in infer_states] or None
     N = rng.randint(20, 50)
     G = rng.randint(1, 4)
     q = rng.choice([0.3, 0.5, 0.75])
@@ -159,10 +176,15 @@ def run_case(rng, idx, tier, lane, ctx):
                 "witnesses": [{"what": "ABC / loss construction raised", "error": short_exc(e), "tb": tb_tail(e)}]}
 
     def model_theta(particle):
-        th = list(c.theta)
+        """(theta, x0) of the model for a particle, assigned BY NAME (independent of pygom's internal re-ordering)."""
+        th, xs = list(c.theta), list(c.x0)
         for (name, _k, _a, _b, logsc), v in zip(desc, particle):
-            th[c.params.index(name)] = 10 ** v if logsc else v
-        return th
+            val = 10 ** v if logsc else v
+            if name in c.params:
+                th[c.params.index(name)] = val
+            else:
+                xs[c.states.index(name)] = val
+        return th, xs
 
     # ---- schedule
     tol0 = 1e12
@@ -246,8 +268,8 @@ def run_case(rng, idx, tier, lane, ctx):
         if not np.isclose(cst, abc.dist[i], rtol=1e-9, atol=1e-12):
             bad("stored distance differs from the cost recomputed at the particle", index=i, stored=float(abc.dist[i]), recomputed=cst)
         if i in sub:
-            th = model_theta(abc.res[i])
-            r = LC.ref_solution(c, theta=th, crosscheck=False, amplification=False)
+            th, xs = model_theta(abc.res[i])
+            r = LC.ref_solution(c, theta=th, x0=xs, crosscheck=False, amplification=False)
             if r.ok:
                 yhat = r.x[:, c.obs_idx]
                 exp = LC.ref_cost(c, yhat)
@@ -255,7 +277,7 @@ def run_case(rng, idx, tier, lane, ctx):
                 counters["reference_cost_checks"] += 1
                 if not abs(abc.dist[i] - exp) <= 1e-6 * (1 + abs(exp)) + g * tol_x:
                     bad("stored distance differs from the reference cost at the particle (parameter order / log-scale back-transform)", index=i,
-                        stored=float(abc.dist[i]), reference=exp, particle=abc.res[i].tolist(), model_parameters=th)
+                        stored=float(abc.dist[i]), reference=exp, particle=abc.res[i].tolist(), names=[d[0] for d in desc], model_parameters=th, model_x0=xs)
     if len(abc.w) != N or not np.all(np.isfinite(abc.w)) or not np.all(abc.w > 0):
         bad("final weights are not all positive and finite")
     # ---- tolerance schedule
